@@ -65,7 +65,76 @@ theorem vk_fromDer_err (E : Ext) (hsq : ∀ c ∈ Gen.curveTable, SqrtSpec E.sqr
   have hc := (findCurve_ok hcv).1
   exact Or.inr (Or.inl (fromString_err E curve (table_p_pos _ hc) (hsq _ hc) _ _ _ h))
 
-/-- the shared tail of the private-key parser -/
+/-- the shared tail of the private-key parser; hypothesis-free since F14 (`SK.fromString` fails only with `MalformedPointError` for every `Ext`) -/
+theorem ecPrivateKeyTail_err' (E : Ext) (version : Nat) (s : Bytes) (curve : Option Curve) (e : PyErr)
+    (h : SK.ecPrivateKeyTail E version s curve = .error e) : Documented e := by
+  unfold SK.ecPrivateKeyTail at h
+  split at h
+  · injection h with h; exact Or.inl h.symm
+  rcases bind_err h with h | ⟨⟨privkeyStr, s'⟩, _, h⟩
+  · exact Or.inl (Der.removeOctetString_err h)
+  simp only at h
+  rcases bind_err h with h | ⟨c, _, h⟩
+  · cases curve with
+    | some c0 => simp only at h; cases h
+    | none =>
+      simp only at h
+      rcases bind_err h with h | ⟨⟨tag, curveOidStr, rest⟩, _, h⟩
+      · exact Or.inl (Der.removeConstructed_err h)
+      simp only at h
+      split at h
+      · injection h with h; exact Or.inl h.symm
+      rcases bind_err h with h | ⟨⟨curveOid, empty⟩, _, h⟩
+      · exact Or.inl (Der.removeObject_err h)
+      simp only at h
+      split at h
+      · injection h with h; exact Or.inl h.symm
+      · exact Or.inr (Or.inr (findCurve_err h))
+  · exact Or.inr (Or.inl (sk_fromString_err' E c _ _ h))
+
+/-- `SigningKey.from_der`: only documented errors, for every `Ext` -/
+theorem sk_fromDer_err' (E : Ext) (s : Bytes) (e : PyErr) (h : SK.fromDer E s = .error e) : Documented e := by
+  unfold SK.fromDer at h
+  rcases bind_err h with h | ⟨⟨s1, empty⟩, _, h⟩
+  · exact Or.inl (Der.removeSequence_err h)
+  simp only at h
+  split at h
+  · injection h with h; exact Or.inl h.symm
+  rcases bind_err h with h | ⟨⟨version, s2⟩, _, h⟩
+  · exact Or.inl (Der.removeInteger_err h)
+  simp only at h
+  split at h
+  · split at h
+    · injection h with h; exact Or.inl h.symm
+    rcases bind_err h with h | ⟨⟨sequence, s3⟩, _, h⟩
+    · exact Or.inl (Der.removeSequence_err h)
+    simp only at h
+    rcases bind_err h with h | ⟨⟨algorithmOid, algorithmIdentifier⟩, _, h⟩
+    · exact Or.inl (Der.removeObject_err h)
+    simp only at h
+    rcases bind_err h with h | ⟨⟨curveOid, empty2⟩, _, h⟩
+    · exact Or.inl (Der.removeObject_err h)
+    simp only at h
+    rcases bind_err h with h | ⟨curve, _, h⟩
+    · exact Or.inr (Or.inr (findCurve_err h))
+    split at h
+    · injection h with h; exact Or.inl h.symm
+    split at h
+    · injection h with h; exact Or.inl h.symm
+    rcases bind_err h with h | ⟨⟨s4, _⟩, _, h⟩
+    · exact Or.inl (Der.removeOctetString_err h)
+    simp only at h
+    rcases bind_err h with h | ⟨⟨s5, empty3⟩, _, h⟩
+    · exact Or.inl (Der.removeSequence_err h)
+    simp only at h
+    split at h
+    · injection h with h; exact Or.inl h.symm
+    rcases bind_err h with h | ⟨⟨version2, s6⟩, _, h⟩
+    · exact Or.inl (Der.removeInteger_err h)
+    simp only at h
+    exact ecPrivateKeyTail_err' E version2 s6 (some curve) e h
+  · exact ecPrivateKeyTail_err' E version s2 none e h
+
 theorem ecPrivateKeyTail_err (E : Ext) (hpub : ∀ c ∈ Gen.curveTable, PubSpec E c) (version : Nat) (s : Bytes)
     (curve : Option Curve) (hcv : ∀ c, curve = some c → c ∈ Gen.curveTable) (e : PyErr)
     (h : SK.ecPrivateKeyTail E version s curve = .error e) : Documented e := by
